@@ -1,3 +1,960 @@
+//! h14run -- the running legs: C02 (accepted Sierra runs to completion) and the run-time formulas of
+//! C04 (gas charged covers the actual cost) and C17 (static ap change = run-time ap movement, every
+//! traced pc inside exactly one recorded statement range).
+//!
+//! usage:
+//!   h14run <sources_dir with *.cairo> <out_dir> <quick|thorough>      parent (watched workers)
+//!   h14run worker <batch.json> <result.json>                          child: compiles + runs a batch
+//!
+//! Every source is compiled with /repo's current compiler (corelib at /repo/corelib/src, automatic
+//! withdraw_gas on), then for both metadata configurations (linear solvers / equation solvers) a
+//! `SierraCasmRunner` + `RunnableBuilder` are built and every function of the source's own crate whose
+//! user parameters are scalars (integers, felt252, bool, u256, bytes31, tuples/structs/snapshots of
+//! those, arrays of scalars) is run on in-range inputs incl. boundaries with several gas budgets.
+//! Output: summary.json, runtime_failures.json ({leg: C02|C04|C17, program, function, args, gas,
+//! solver, what}), samples.txt.
+use std::collections::BTreeMap;
+use std::io::Write as _;
+use std::panic::AssertUnwindSafe;
+use std::path::{Path, PathBuf};
+use std::process::{Command, Stdio};
+use std::sync::atomic::{AtomicUsize, Ordering};
+use std::sync::{Arc, Mutex};
+use std::time::{Duration, Instant};
+
+use cairo_lang_compiler::db::RootDatabase;
+use cairo_lang_compiler::diagnostics::DiagnosticsReporter;
+use cairo_lang_compiler::project::setup_project;
+use cairo_lang_filesystem::db::{CrateConfiguration, ExperimentalFeaturesConfig, init_dev_corelib};
+use cairo_lang_filesystem::ids::{CrateId, CrateInput, Directory, SmolStrId};
+use cairo_lang_runnable_utils::builder::{EntryCodeConfig, RunnableBuilder};
+use cairo_lang_runner::casm_run::{RunFunctionResult, run_function};
+use cairo_lang_runner::{Arg, RunResultValue, RunnerError, SierraCasmRunner, StarknetState, initialize_vm, token_gas_cost};
+use cairo_lang_sierra::extensions::gas::CostTokenType;
+use cairo_lang_sierra::ids::ConcreteTypeId;
+use cairo_lang_sierra::program::{Function, GenericArg, Program, Statement};
+use cairo_lang_sierra_generator::db::SierraGenGroup;
+use cairo_lang_sierra_generator::replace_ids::{DebugReplacer, SierraIdReplacer};
+use cairo_lang_sierra_to_casm::metadata::MetadataComputationConfig;
+use cairo_lang_utils::bigint::BigIntAsHex;
+use cairo_vm::types::builtin_name::BuiltinName;
+use num_bigint::BigInt;
+use num_traits::{One, Zero};
+use serde_json::{Value, json};
+use starknet_types_core::felt::Felt as Felt252;
+use vcommon::{Rng, catch, last_panic_location, quiet_panics, stark_prime};
+
+const CORELIB: &str = "/repo/corelib/src";
+
+fn fnv(s: &str) -> u64 {
+    let mut h: u64 = 0xcbf29ce484222325;
+    for b in s.bytes() {
+        h ^= b as u64;
+        h = h.wrapping_mul(0x100000001b3);
+    }
+    h
+}
+
+// ------------------------------------------------------------------------------------------------
+// argument generation
+// ------------------------------------------------------------------------------------------------
+/// What one user parameter looks like to the generator.
+#[derive(Clone, Debug)]
+enum Shape {
+    /// an integer in [lo, hi] (felt252: [0, P-1])
+    Int(BigInt, BigInt),
+    NonZero(Box<Shape>),
+    Tuple(Vec<Shape>),
+    Array(Box<Shape>),
+}
+
+fn int_range(name: &str, args: &[GenericArg]) -> Option<(BigInt, BigInt)> {
+    let one = BigInt::one();
+    let u = |bits: u32| Some((BigInt::zero(), (BigInt::one() << bits) - 1));
+    let i = |bits: u32| Some((-(BigInt::one() << (bits - 1)), (BigInt::one() << (bits - 1)) - 1));
+    match name {
+        "felt252" => Some((BigInt::zero(), stark_prime() - &one)),
+        "u8" => u(8),
+        "u16" => u(16),
+        "u32" => u(32),
+        "u64" => u(64),
+        "u128" => u(128),
+        "i8" => i(8),
+        "i16" => i(16),
+        "i32" => i(32),
+        "i64" => i(64),
+        "i128" => i(128),
+        "bytes31" => u(248),
+        "BoundedInt" => match args {
+            [GenericArg::Value(lo), GenericArg::Value(hi)] if lo <= hi => Some((lo.clone(), hi.clone())),
+            _ => None,
+        },
+        _ => None,
+    }
+}
+
+fn shape_of(b: &RunnableBuilder, ty: &ConcreteTypeId, depth: usize) -> Option<Shape> {
+    if depth > 6 {
+        return None;
+    }
+    let long = b.type_long_id(ty);
+    let name = long.generic_id.0.as_str();
+    if let Some((lo, hi)) = int_range(name, &long.generic_args) {
+        return Some(Shape::Int(lo, hi));
+    }
+    match name {
+        "Struct" => {
+            let mut parts = vec![];
+            for a in long.generic_args.iter().skip(1) {
+                let GenericArg::Type(t) = a else { return None };
+                parts.push(shape_of(b, t, depth + 1)?);
+            }
+            Some(Shape::Tuple(parts))
+        }
+        "Enum" => {
+            // only enums of one or two unit variants (bool): the selector is the variant index
+            let vars: Vec<_> = long.generic_args.iter().skip(1).collect();
+            if vars.is_empty() || vars.len() > 2 {
+                return None;
+            }
+            for a in &vars {
+                let GenericArg::Type(t) = a else { return None };
+                match shape_of(b, t, depth + 1)? {
+                    Shape::Tuple(v) if v.is_empty() => {}
+                    _ => return None,
+                }
+            }
+            if b.type_size(ty) != 1 {
+                return None;
+            }
+            Some(Shape::Int(BigInt::zero(), BigInt::from(vars.len() as u32 - 1)))
+        }
+        "Snapshot" => match long.generic_args.as_slice() {
+            [GenericArg::Type(t)] => shape_of(b, t, depth + 1),
+            _ => None,
+        },
+        "NonZero" => match long.generic_args.as_slice() {
+            [GenericArg::Type(t)] => Some(Shape::NonZero(Box::new(shape_of(b, t, depth + 1)?))),
+            _ => None,
+        },
+        "Array" => match long.generic_args.as_slice() {
+            [GenericArg::Type(t)] => match shape_of(b, t, depth + 1)? {
+                s @ Shape::Int(..) => Some(Shape::Array(Box::new(s))),
+                _ => None,
+            },
+            _ => None,
+        },
+        _ => None,
+    }
+}
+
+/// mode: 0 = minimum, 1 = maximum, 2 = zero/one-ish, 3.. = random incl. near-boundary values
+fn gen_int(lo: &BigInt, hi: &BigInt, mode: u64, rng: &mut Rng) -> BigInt {
+    let clamp = |v: BigInt| if &v < lo { lo.clone() } else if &v > hi { hi.clone() } else { v };
+    match mode {
+        0 => lo.clone(),
+        1 => hi.clone(),
+        2 => clamp(BigInt::from(rng.below(2))),
+        _ => match rng.below(8) {
+            0 => clamp(lo + BigInt::from(rng.below(3))),
+            1 => clamp(hi - BigInt::from(rng.below(3))),
+            2 => clamp(BigInt::from(rng.below(300))),
+            3 => clamp(BigInt::from(rng.below(300)) - 150),
+            4 => clamp((BigInt::one() << (rng.below(130) as u32)) - BigInt::from(rng.below(2))),
+            _ => {
+                let span = hi - lo + 1;
+                lo + (rng.bits(256) % span)
+            }
+        },
+    }
+}
+
+fn felt(v: &BigInt) -> Felt252 {
+    let p = stark_prime();
+    Felt252::from(((v % &p) + &p) % &p)
+}
+
+fn gen_args(s: &Shape, mode: u64, rng: &mut Rng, out: &mut Vec<Arg>, shown: &mut Vec<String>) {
+    match s {
+        Shape::Int(lo, hi) => {
+            let v = gen_int(lo, hi, mode, rng);
+            shown.push(v.to_string());
+            out.push(Arg::Value(felt(&v)));
+        }
+        Shape::NonZero(inner) => {
+            let start = out.len();
+            let sstart = shown.len();
+            gen_args(inner, mode, rng, out, shown);
+            // all-zero would not be a value of NonZero<T>: make the first cell one
+            let zero = out[start..].iter().all(|a| matches!(a, Arg::Value(v) if *v == Felt252::from(0)));
+            if zero {
+                if let Some(Arg::Value(v)) = out.get_mut(start) {
+                    *v = Felt252::from(1);
+                    shown[sstart] = "1".into();
+                }
+            }
+        }
+        Shape::Tuple(parts) => {
+            for p in parts {
+                gen_args(p, mode, rng, out, shown);
+            }
+        }
+        Shape::Array(elem) => {
+            let n = match mode {
+                0 => 0,
+                1 => 3,
+                2 => 1,
+                _ => rng.below(6),
+            };
+            let mut inner = vec![];
+            let mut ishown = vec![];
+            for _ in 0..n {
+                gen_args(elem, 3 + rng.below(3), rng, &mut inner, &mut ishown);
+            }
+            shown.push(format!("[{}]", ishown.join(",")));
+            out.push(Arg::Array(inner));
+        }
+    }
+}
+
+// ------------------------------------------------------------------------------------------------
+// one compiled program under one metadata configuration
+// ------------------------------------------------------------------------------------------------
+struct Failure {
+    leg: &'static str,
+    program: String,
+    function: String,
+    args: String,
+    gas: Option<usize>,
+    solver: &'static str,
+    what: String,
+}
+impl Failure {
+    fn json(&self) -> Value {
+        json!({"leg": self.leg, "program": self.program, "function": self.function, "args": self.args,
+               "gas": self.gas, "solver": self.solver, "what": self.what})
+    }
+}
+
+#[derive(Default)]
+struct Stats {
+    sources: usize,
+    compiled: usize,
+    not_compiled: usize,
+    configs_built: usize,
+    configs_refused: Vec<String>,
+    functions_seen: usize,
+    functions_runnable: usize,
+    runs: usize,
+    runs_ok: usize,
+    runs_success_value: usize,
+    runs_panic_value: usize,
+    runs_not_enough_gas_to_call: usize,
+    vm_errors: usize,
+    c04_checked: usize,
+    c04_max_ratio_permille: u64,
+    c17_call_instances: usize,
+    c17_call_instances_declared: usize,
+    c17_trace_pcs: usize,
+    c17_const_segment_pcs: usize,
+    cross_checked: usize,
+    distinct_traces: std::collections::BTreeSet<u64>,
+    builtin_uses: BTreeMap<String, usize>,
+    samples: Vec<String>,
+}
+
+struct Layout {
+    /// (start, end) of every statement, by index
+    ranges: Vec<(usize, usize)>,
+    is_return: Vec<bool>,
+    code_end: usize,
+    const_rets: Vec<usize>,
+    program_len: usize,
+    /// entry offset -> (function name, declared ap change)
+    entries: BTreeMap<usize, Vec<(String, Option<usize>)>>,
+}
+
+fn layout_of(b: &RunnableBuilder) -> Layout {
+    let casm = b.casm_program();
+    let prog = b.sierra_program();
+    let infos = &casm.debug_info.sierra_statement_info;
+    let ranges: Vec<(usize, usize)> = infos.iter().map(|s| (s.start_offset, s.end_offset)).collect();
+    let is_return = prog.statements.iter().map(|s| matches!(s, Statement::Return(_))).collect();
+    let code_end: usize = casm.instructions.iter().map(|i| i.body.op_size()).sum();
+    let mut const_rets = vec![];
+    let mut off = code_end;
+    for seg in casm.consts_info.segments.values() {
+        const_rets.push(off);
+        off += 1 + seg.values.len();
+    }
+    let mut entries: BTreeMap<usize, Vec<(String, Option<usize>)>> = BTreeMap::new();
+    for f in &prog.funcs {
+        let start = ranges.get(f.entry_point.0).map(|r| r.0).unwrap_or(usize::MAX);
+        let k = b.metadata().ap_change_info.function_ap_change.get(&f.id).copied();
+        entries.entry(start).or_default().push((f.id.to_string(), k));
+    }
+    Layout { ranges, is_return, code_end, const_rets, program_len: off, entries }
+}
+
+impl Layout {
+    /// the statements whose non-empty recorded range contains `rel`
+    fn statements_at(&self, rel: usize) -> Vec<usize> {
+        // ranges are sorted by start: binary search for the last start <= rel, then look around it
+        let mut lo = 0usize;
+        let mut hi = self.ranges.len();
+        while lo < hi {
+            let mid = (lo + hi) / 2;
+            if self.ranges[mid].0 <= rel { lo = mid + 1 } else { hi = mid }
+        }
+        let mut res = vec![];
+        let mut i = lo;
+        while i > 0 {
+            i -= 1;
+            let (s, e) = self.ranges[i];
+            if s <= rel && rel < e {
+                res.push(i);
+            }
+            if e <= rel && s < e && res.is_empty() && lo - i > 4 {
+                break;
+            }
+            if lo - i > 64 {
+                break;
+            }
+        }
+        res
+    }
+}
+
+struct Ctx<'a> {
+    program_name: &'a str,
+    solver: &'static str,
+    runner: &'a SierraCasmRunner,
+    builder: &'a RunnableBuilder,
+    layout: &'a Layout,
+}
+
+struct RunOut {
+    gas_left: Option<BigInt>,
+    n_steps: usize,
+}
+
+fn price_of_builtin(name: &BuiltinName) -> Option<u64> {
+    Some(match name {
+        BuiltinName::range_check => 70,
+        BuiltinName::range_check96 => 56,
+        BuiltinName::pedersen => token_gas_cost(CostTokenType::Pedersen) as u64,
+        BuiltinName::poseidon => token_gas_cost(CostTokenType::Poseidon) as u64,
+        BuiltinName::bitwise => token_gas_cost(CostTokenType::Bitwise) as u64,
+        BuiltinName::ec_op => token_gas_cost(CostTokenType::EcOp) as u64,
+        BuiltinName::add_mod => token_gas_cost(CostTokenType::AddMod) as u64,
+        BuiltinName::mul_mod => token_gas_cost(CostTokenType::MulMod) as u64,
+        _ => return None,
+    })
+}
+
+/// One run through the low-level path (so that the relocated trace is available) with the three
+/// oracles.  `Err(what)` only for conditions that are not about the properties (argument mismatch).
+fn one_run(
+    cx: &Ctx,
+    func: &Function,
+    args: &[Arg],
+    shown: &str,
+    gas: usize,
+    stats: &mut Stats,
+    failures: &mut Vec<Failure>,
+) -> Result<Option<RunOut>, String> {
+    let fname = func.id.to_string();
+    let mut fail = |leg: &'static str, what: String, failures: &mut Vec<Failure>| {
+        failures.push(Failure {
+            leg,
+            program: cx.program_name.to_string(),
+            function: fname.clone(),
+            args: shown.to_string(),
+            gas: Some(gas),
+            solver: cx.solver,
+            what,
+        });
+    };
+    let prepared = catch(AssertUnwindSafe(|| {
+        cx.runner.prepare_starknet_context(func, args.to_vec(), Some(gas), StarknetState::default())
+    }));
+    let (mut hint_processor, pctx) = match prepared {
+        Ok(Ok(x)) => x,
+        Ok(Err(RunnerError::NotEnoughGasToCall)) => {
+            stats.runs_not_enough_gas_to_call += 1;
+            return Ok(None);
+        }
+        Ok(Err(e)) => return Err(format!("{e}")),
+        Err(p) => {
+            stats.runs += 1;
+            fail("C02", format!("the runner panicked while preparing the run: {p} @ {}", last_panic_location()), failures);
+            return Ok(None);
+        }
+    };
+    stats.runs += 1;
+    let data_len = pctx.bytecode.len();
+    let res = catch(AssertUnwindSafe(|| {
+        run_function(pctx.bytecode.iter(), pctx.builtins.clone(), |vm| initialize_vm(vm, data_len), &mut hint_processor, pctx.hints_dict)
+    }));
+    let RunFunctionResult { ap, used_resources, memory, relocated_trace } = match res {
+        Ok(Ok(r)) => r,
+        Ok(Err(e)) => {
+            stats.vm_errors += 1;
+            let msg: String = format!("{e}").chars().take(600).collect();
+            fail("C02", format!("VM-level failure (RunnerError::CairoRunError): {msg}"), failures);
+            return Ok(None);
+        }
+        Err(p) => {
+            stats.vm_errors += 1;
+            fail("C02", format!("the VM run panicked: {p} @ {}", last_panic_location()), failures);
+            return Ok(None);
+        }
+    };
+    stats.runs_ok += 1;
+    // ---- what SierraCasmRunner::run_function does with the trace ----
+    let header_end = relocated_trace.last().map(|e| e.pc).unwrap_or(0);
+    let lead = relocated_trace.iter().position(|e| e.pc > header_end).unwrap_or(0);
+    let tail = relocated_trace.iter().rev().position(|e| e.pc > header_end).unwrap_or(0);
+    let n_steps = used_resources.n_steps.saturating_sub(lead + tail);
+    let load_offset = header_end + 1;
+    let return_types = cx.builder.generic_id_and_size_from_concrete(&func.signature.ret_types);
+    let gas_left: Option<BigInt> = match catch(AssertUnwindSafe(|| cx.runner.get_results_data(&return_types, &memory, ap))) {
+        Ok((_, g)) => g.map(|f| f.to_bigint()),
+        Err(p) => {
+            fail("C02", format!("reading the results panicked: {p} @ {}", last_panic_location()), failures);
+            return Ok(None);
+        }
+    };
+    // ---- C04: 100*steps + 70*range_checks + sum price(b)*uses(b) <= (g - gas_left) + 100 ----
+    let mut actual: u64 = 100 * n_steps as u64;
+    let mut uses = vec![];
+    for (name, count) in used_resources.builtin_instance_counter.iter() {
+        if *count == 0 {
+            continue;
+        }
+        *stats.builtin_uses.entry(name.to_str().to_string()).or_insert(0) += *count;
+        if let Some(pr) = price_of_builtin(name) {
+            actual += pr * *count as u64;
+            uses.push(format!("{}x{}", name.to_str(), count));
+        }
+    }
+    let required = cx.runner.initial_required_gas(func);
+    let charged: Option<BigInt> = match (&gas_left, required) {
+        (Some(left), _) => Some(BigInt::from(gas) - left + 100),
+        // no gas counter in the signature: the function's declared entry cost must cover the run
+        (None, Some(req)) => Some(BigInt::from(req) + 100),
+        (None, None) => None,
+    };
+    if let Some(ch) = &charged {
+        stats.c04_checked += 1;
+        if ch.sign() == num_bigint::Sign::Plus {
+            let ratio = (BigInt::from(actual) * 1000u32 / ch).to_string().parse::<u64>().unwrap_or(u64::MAX);
+            stats.c04_max_ratio_permille = stats.c04_max_ratio_permille.max(ratio);
+        }
+        if BigInt::from(actual) > *ch {
+            fail(
+                "C04",
+                format!(
+                    "actual cost {} (= 100*{} steps + builtins [{}]) exceeds gas charged {} (= given {} - left {} + 100; entry cost {:?})",
+                    actual,
+                    n_steps,
+                    uses.join(", "),
+                    ch,
+                    gas,
+                    gas_left.as_ref().map(|g| g.to_string()).unwrap_or_else(|| "n/a".into()),
+                    required
+                ),
+                failures,
+            );
+        }
+        if let Some(left) = &gas_left {
+            if left.sign() == num_bigint::Sign::Minus || *left > BigInt::from(gas) {
+                fail("C04", format!("gas counter after the run is {left}, given {gas}"), failures);
+            }
+        }
+    }
+    // ---- C17: ap movement of every dynamic call instance; every pc in exactly one statement ----
+    let lay = cx.layout;
+    let mut stack: Vec<(String, Option<usize>, usize, usize)> = vec![]; // (function, k, ap_entry, fp)
+    let mut prev_fp: Option<usize> = None;
+    let mut h = std::collections::hash_map::DefaultHasher::new();
+    use std::hash::Hasher;
+    for e in relocated_trace.iter() {
+        if e.pc <= header_end {
+            prev_fp = Some(e.fp);
+            continue;
+        }
+        let rel = e.pc - load_offset;
+        h.write_usize(rel);
+        stats.c17_trace_pcs += 1;
+        if rel >= lay.code_end {
+            // the const segments' `ret`s and the runner's one-instruction footer (`ret` right after the
+            // program, used by libfuncs that read pc/fp through `call rel`) are the only executable
+            // words beyond the statements
+            if lay.const_rets.contains(&rel) || rel == lay.program_len {
+                stats.c17_const_segment_pcs += 1;
+            } else {
+                fail("C17", format!("traced pc {rel} (relative to the program) lies beyond the code ({}), not on a const-segment ret; program length {}", lay.code_end, lay.program_len), failures);
+                break;
+            }
+            prev_fp = Some(e.fp);
+            continue;
+        }
+        let sts = lay.statements_at(rel);
+        if sts.len() != 1 {
+            fail("C17", format!("traced pc {rel} lies in the recorded ranges of {} statements {:?}", sts.len(), sts), failures);
+            break;
+        }
+        // function entry: reached by a call (fp changed, ap == fp) at the entry offset of a function
+        if prev_fp != Some(e.fp) && e.ap == e.fp {
+            if let Some(fs) = lay.entries.get(&rel) {
+                let (name, k) = fs[0].clone();
+                let k = if fs.iter().all(|x| x.1 == k) { k } else { None };
+                stack.push((name, k, e.ap, e.fp));
+            }
+        }
+        if lay.is_return[sts[0]] {
+            if let Some(top) = stack.last() {
+                if top.3 == e.fp {
+                    let (name, k, ap0, _) = stack.pop().unwrap();
+                    stats.c17_call_instances += 1;
+                    if let Some(k) = k {
+                        stats.c17_call_instances_declared += 1;
+                        if e.ap < ap0 || e.ap - ap0 != k {
+                            fail(
+                                "C17",
+                                format!(
+                                    "call instance of {name}: ap at ret - ap at entry = {} but function_ap_change declares {k} (ret at pc {rel}, depth {})",
+                                    e.ap as i64 - ap0 as i64,
+                                    stack.len()
+                                ),
+                                failures,
+                            );
+                        }
+                    }
+                }
+            }
+        }
+        prev_fp = Some(e.fp);
+    }
+    stats.distinct_traces.insert(h.finish());
+    Ok(Some(RunOut { gas_left, n_steps }))
+}
+
+fn run_program(name: &str, program: &Program, thorough: bool, seed: u64, stats: &mut Stats, failures: &mut Vec<Failure>) {
+    let crate_prefix = format!("{name}::");
+    for (solver, linear) in [("linear", true), ("nonlinear", false)] {
+        let cfg = MetadataComputationConfig {
+            linear_gas_solver: linear,
+            linear_ap_change_solver: linear,
+            // the cross-check of the two solvers is a C14 matter (it panics on valid programs)
+            skip_non_linear_solver_comparisons: true,
+            ..Default::default()
+        };
+        let built = catch(AssertUnwindSafe(|| {
+            let b = RunnableBuilder::new(program.clone(), Some(cfg.clone())).map_err(|e| format!("{e}"))?;
+            let r = SierraCasmRunner::new(program.clone(), Some(cfg.clone()), Default::default(), None)
+                .map_err(|e| format!("{e}"))?;
+            Ok::<_, String>((b, r))
+        }));
+        let (builder, runner) = match built {
+            Ok(Ok(x)) => x,
+            Ok(Err(e)) => {
+                stats.configs_refused.push(format!("{name}[{solver}]: {}", e.chars().take(120).collect::<String>()));
+                continue;
+            }
+            Err(p) => {
+                stats.configs_refused.push(format!("{name}[{solver}]: panic {} @ {}", p.chars().take(80).collect::<String>(), last_panic_location()));
+                continue;
+            }
+        };
+        stats.configs_built += 1;
+        let layout = layout_of(&builder);
+        let cx = Ctx { program_name: name, solver, runner: &runner, builder: &builder, layout: &layout };
+        for func in &program.funcs {
+            let fname = func.id.to_string();
+            if !fname.starts_with(&crate_prefix) {
+                continue;
+            }
+            if linear {
+                stats.functions_seen += 1;
+            }
+            // user parameters
+            let mut shapes = vec![];
+            let mut ok = true;
+            for ty in &func.signature.param_types {
+                let g = &builder.type_long_id(ty).generic_id;
+                if !builder.is_user_arg_type(g) {
+                    continue;
+                }
+                match shape_of(&builder, ty, 0) {
+                    Some(s) => shapes.push(s),
+                    None => ok = false,
+                }
+            }
+            if !ok {
+                continue;
+            }
+            if linear {
+                stats.functions_runnable += 1;
+            }
+            let mut rng = Rng(seed ^ fnv(&fname) ^ fnv(name));
+            let n_vectors = if shapes.is_empty() { 1 } else if thorough { 16 } else { 5 };
+            for v in 0..n_vectors {
+                let mut args = vec![];
+                let mut shown = vec![];
+                for s in &shapes {
+                    // vector 0: all minima, 1: all maxima, 2: zero/one, then per-parameter mixes
+                    let mode = if v < 3 { v as u64 } else { rng.below(6) };
+                    gen_args(s, mode, &mut rng, &mut args, &mut shown);
+                }
+                let shown = shown.join(", ");
+                let required = runner.initial_required_gas(func).unwrap_or(0);
+                // a large budget first; then the exact consumption, one less, the bare entry cost, tiny
+                let large = required + 10_000_000;
+                let first = match one_run(&cx, func, &args, &shown, large, stats, failures) {
+                    Ok(x) => x,
+                    Err(_) => break, // argument shape not accepted by the runner: not a property matter
+                };
+                let mut budgets: Vec<usize> = vec![required, required + 1, required + 100, required + 3000];
+                if required > 0 {
+                    budgets.push(required - 1);
+                    budgets.push(0);
+                }
+                if let Some(out) = &first {
+                    if let Some(left) = &out.gas_left {
+                        if let Ok(left) = left.to_string().parse::<usize>() {
+                            let used = large.saturating_sub(left);
+                            budgets.push(used);
+                            budgets.push(used.saturating_sub(1));
+                            budgets.push(used + 1);
+                        }
+                    }
+                    if stats.samples.len() < 8 && v == 1 {
+                        stats.samples.push(format!(
+                            "{name}: {fname}({shown}) gas {large} [{solver}] -> {} steps, gas left {:?}",
+                            out.n_steps,
+                            out.gas_left.as_ref().map(|g| g.to_string())
+                        ));
+                    }
+                    // cross-check with the public API on the same input
+                    let user_rets = func
+                        .signature
+                        .ret_types
+                        .iter()
+                        .filter(|t| builder.is_user_arg_type(&builder.type_long_id(t).generic_id))
+                        .count();
+                    // (SierraCasmRunner::run_function documents: "no other ref params")
+                    if v < 2 && user_rets <= 1 {
+                        let r = catch(AssertUnwindSafe(|| {
+                            runner.run_function_with_starknet_context(func, args.clone(), Some(large), StarknetState::default())
+                        }));
+                        match r {
+                            Ok(Ok(r)) => {
+                                stats.cross_checked += 1;
+                                match r.value {
+                                    RunResultValue::Success(_) => stats.runs_success_value += 1,
+                                    RunResultValue::Panic(_) => stats.runs_panic_value += 1,
+                                }
+                                let g = r.gas_counter.map(|f| f.to_bigint());
+                                if g != out.gas_left || r.used_resources.basic_resources.n_steps != out.n_steps {
+                                    failures.push(Failure {
+                                        leg: "C02",
+                                        program: name.to_string(),
+                                        function: fname.clone(),
+                                        args: shown.clone(),
+                                        gas: Some(large),
+                                        solver,
+                                        what: format!(
+                                            "harness self-check: run_function_with_starknet_context reports gas {:?} / {} steps, the low-level path {:?} / {}",
+                                            g, r.used_resources.basic_resources.n_steps, out.gas_left, out.n_steps
+                                        ),
+                                    });
+                                }
+                            }
+                            Ok(Err(e)) => failures.push(Failure {
+                                leg: "C02",
+                                program: name.to_string(),
+                                function: fname.clone(),
+                                args: shown.clone(),
+                                gas: Some(large),
+                                solver,
+                                what: format!("run_function_with_starknet_context fails where the low-level run succeeded: {e}"),
+                            }),
+                            Err(p) => failures.push(Failure {
+                                leg: "C02",
+                                program: name.to_string(),
+                                function: fname.clone(),
+                                args: shown.clone(),
+                                gas: Some(large),
+                                solver,
+                                what: format!("run_function_with_starknet_context panicked: {p} @ {}", last_panic_location()),
+                            }),
+                        }
+                    }
+                }
+                budgets.sort();
+                budgets.dedup();
+                let nb = if thorough { budgets.len() } else { budgets.len().min(6) };
+                for g in budgets.into_iter().rev().take(nb) {
+                    if one_run(&cx, func, &args, &shown, g, stats, failures).is_err() {
+                        break;
+                    }
+                }
+            }
+        }
+    }
+}
+
+// ------------------------------------------------------------------------------------------------
+// worker: compile a batch of sources with one database, run them
+// ------------------------------------------------------------------------------------------------
+fn worker_main(batch_file: &str, result_file: &str) {
+    quiet_panics();
+    let lim = libc::rlimit { rlim_cur: 12u64 << 30, rlim_max: 12u64 << 30 };
+    unsafe {
+        libc::setrlimit(libc::RLIMIT_AS, &lim);
+    }
+    let batch: Value = serde_json::from_str(&std::fs::read_to_string(batch_file).expect("batch")).expect("json");
+    let thorough = batch["tier"].as_str() == Some("thorough");
+    let seed = batch["seed"].as_u64().unwrap_or(1);
+    let files: Vec<String> = batch["files"].as_array().unwrap().iter().filter_map(|x| x.as_str().map(String::from)).collect();
+    let mut stats = Stats::default();
+    let mut failures: Vec<Failure> = vec![];
+    let mut not_compiled: Vec<String> = vec![];
+    let progress = format!("{result_file}.inflight");
+    let mut b = RootDatabase::builder();
+    // assert_eq! & co (bug samples are written as tests) and the starknet plugin (contracts)
+    b.with_default_plugin_suite(cairo_lang_test_plugin::test_assert_suite());
+    b.with_default_plugin_suite(cairo_lang_starknet::starknet_plugin_suite());
+    let mut db = b.build().expect("RootDatabase");
+    init_dev_corelib(&mut db, PathBuf::from(CORELIB));
+    for f in &files {
+        stats.sources += 1;
+        let name = Path::new(f).file_stem().unwrap().to_string_lossy().to_string();
+        let _ = std::fs::write(&progress, f);
+        let compiled = catch(AssertUnwindSafe(|| -> Result<Program, String> {
+            let inputs = setup_project(&mut db, Path::new(f)).map_err(|e| format!("{e:?}"))?;
+            // same crate, with the experimental features the e2e test crates enable
+            {
+                let dir = Path::new(f).canonicalize().map_err(|e| e.to_string())?.parent().unwrap().to_path_buf();
+                let mut cfg = CrateConfiguration::default_for_root(Directory::Real(dir));
+                cfg.settings.experimental_features = ExperimentalFeaturesConfig {
+                    negative_impls: true,
+                    associated_item_constraints: true,
+                    coupons: true,
+                    user_defined_inline_macros: true,
+                    repr_ptrs: true,
+                };
+                let crate_configs = {
+                    let crate_id = CrateId::plain(&db, SmolStrId::from(&db, name.as_str()));
+                    cairo_lang_filesystem::db::update_crate_configuration_input_helper(&db, crate_id, Some(cfg))
+                };
+                cairo_lang_filesystem::db::set_crate_configs_input(&mut db, Some(crate_configs));
+            }
+            let mut s = String::new();
+            let failed = DiagnosticsReporter::write_to_string(&mut s).with_crates(&inputs).allow_warnings().check(&db);
+            if failed {
+                return Err(s.chars().take(300).collect());
+            }
+            let dbr = &db;
+            let crate_ids = CrateInput::into_crate_ids(dbr, inputs);
+            let prog = dbr.get_sierra_program(crate_ids).map_err(|_| "no sierra program".to_string())?.clone();
+            let mut sierra = prog.program;
+            let replacer = DebugReplacer { db: dbr };
+            replacer.enrich_function_names(&mut sierra);
+            Ok(replacer.apply(&sierra))
+        }));
+        let program = match compiled {
+            Ok(Ok(p)) => p,
+            Ok(Err(e)) => {
+                stats.not_compiled += 1;
+                not_compiled.push(format!("{name}: {}", e.replace('\n', " ")));
+                continue;
+            }
+            Err(p) => {
+                stats.not_compiled += 1;
+                not_compiled.push(format!("{name}: compiler panic {p} @ {}", last_panic_location()));
+                continue;
+            }
+        };
+        stats.compiled += 1;
+        run_program(&name, &program, thorough, seed, &mut stats, &mut failures);
+        let _ = BigIntAsHex { value: BigInt::zero() };
+    }
+    let res = json!({
+        "sources": stats.sources, "compiled": stats.compiled, "not_compiled": stats.not_compiled,
+        "not_compiled_list": not_compiled,
+        "configs_built": stats.configs_built, "configs_refused": stats.configs_refused,
+        "functions_seen": stats.functions_seen, "functions_runnable": stats.functions_runnable,
+        "runs": stats.runs, "runs_ok": stats.runs_ok, "runs_success_value": stats.runs_success_value,
+        "runs_panic_value": stats.runs_panic_value, "runs_not_enough_gas_to_call": stats.runs_not_enough_gas_to_call,
+        "vm_errors": stats.vm_errors, "c04_checked": stats.c04_checked,
+        "c04_max_actual_over_charged_permille": stats.c04_max_ratio_permille,
+        "c17_call_instances": stats.c17_call_instances, "c17_call_instances_declared": stats.c17_call_instances_declared,
+        "c17_trace_pcs": stats.c17_trace_pcs, "c17_const_segment_pcs": stats.c17_const_segment_pcs,
+        "cross_checked": stats.cross_checked,
+        "distinct_traces": stats.distinct_traces.iter().map(|x| x >> 11).collect::<Vec<_>>(),
+        "builtin_uses": stats.builtin_uses, "samples": stats.samples,
+        "failures": failures.iter().map(|f| f.json()).collect::<Vec<_>>(),
+    });
+    std::fs::write(result_file, serde_json::to_string(&res).unwrap()).unwrap();
+    let _ = std::fs::remove_file(&progress);
+}
+
+// ------------------------------------------------------------------------------------------------
+// parent
+// ------------------------------------------------------------------------------------------------
+fn parent_main(src_dir: &str, out_dir: &str, tier: &str) {
+    let t0 = Instant::now();
+    std::fs::create_dir_all(out_dir).unwrap();
+    let seed = Rng::from_env().0;
+    let mut files: Vec<String> = std::fs::read_dir(src_dir)
+        .unwrap()
+        .filter_map(|e| e.ok())
+        .map(|e| e.path().to_string_lossy().to_string())
+        .filter(|p| p.ends_with(".cairo"))
+        .collect();
+    files.sort();
+    let per_batch = 12;
+    let batches: Vec<Vec<String>> = files.chunks(per_batch).map(|c| c.to_vec()).collect();
+    let ncpu = std::thread::available_parallelism().map(|n| n.get()).unwrap_or(8);
+    let nworkers: usize = std::env::var("H14_WORKERS").ok().and_then(|s| s.parse().ok()).unwrap_or(ncpu.clamp(2, 12));
+    let timeout = Duration::from_secs(if tier == "thorough" { 1500 } else { 600 });
+    let deadline: Option<Instant> =
+        std::env::var("H14_DEADLINE_S").ok().and_then(|s| s.parse::<u64>().ok()).map(|s| t0 + Duration::from_secs(s));
+    let next = Arc::new(AtomicUsize::new(0));
+    let results: Arc<Mutex<Vec<Value>>> = Arc::new(Mutex::new(vec![]));
+    let extra_failures: Arc<Mutex<Vec<Value>>> = Arc::new(Mutex::new(vec![]));
+    let skipped = Arc::new(AtomicUsize::new(0));
+    std::thread::scope(|sc| {
+        for _ in 0..nworkers {
+            let next = next.clone();
+            let results = results.clone();
+            let extra_failures = extra_failures.clone();
+            let skipped = skipped.clone();
+            let batches = &batches;
+            sc.spawn(move || {
+                loop {
+                    let k = next.fetch_add(1, Ordering::SeqCst);
+                    if k >= batches.len() {
+                        break;
+                    }
+                    if let Some(d) = deadline {
+                        if Instant::now() > d {
+                            skipped.fetch_add(1, Ordering::SeqCst);
+                            continue;
+                        }
+                    }
+                    let bf = format!("{out_dir}/batch_{k}.json");
+                    let rf = format!("{out_dir}/result_{k}.json");
+                    let _ = std::fs::remove_file(&rf);
+                    std::fs::write(&bf, serde_json::to_string(&json!({"files": batches[k], "tier": tier, "seed": seed})).unwrap()).unwrap();
+                    let mut child = Command::new(std::env::current_exe().unwrap())
+                        .arg("worker")
+                        .arg(&bf)
+                        .arg(&rf)
+                        .stdin(Stdio::null())
+                        .stdout(Stdio::null())
+                        .stderr(std::fs::File::create(format!("{out_dir}/batch_{k}.err")).map(Stdio::from).unwrap_or_else(|_| Stdio::null()))
+                        .spawn()
+                        .expect("spawn");
+                    let t = Instant::now();
+                    let mut status = None;
+                    while t.elapsed() < timeout {
+                        match child.try_wait() {
+                            Ok(Some(s)) => {
+                                status = Some(s);
+                                break;
+                            }
+                            _ => std::thread::sleep(Duration::from_millis(100)),
+                        }
+                    }
+                    let inflight = std::fs::read_to_string(format!("{rf}.inflight")).unwrap_or_default();
+                    if status.is_none() {
+                        let _ = child.kill();
+                        let _ = child.wait();
+                        extra_failures.lock().unwrap().push(json!({
+                            "leg": "C02", "program": inflight, "function": "", "args": "", "gas": null, "solver": "",
+                            "what": format!("the worker compiling/running this source did not finish within {} s (hang or unbounded run)", timeout.as_secs())}));
+                        continue;
+                    }
+                    match std::fs::read_to_string(&rf).ok().and_then(|t| serde_json::from_str::<Value>(&t).ok()) {
+                        Some(v) => results.lock().unwrap().push(v),
+                        None => {
+                            let err = std::fs::read_to_string(format!("{out_dir}/batch_{k}.err")).unwrap_or_default();
+                            extra_failures.lock().unwrap().push(json!({
+                                "leg": "C02", "program": inflight, "function": "", "args": "", "gas": null, "solver": "",
+                                "what": format!("the worker died ({:?}) while compiling/running this source: {}", status, err.lines().next().unwrap_or(""))}));
+                        }
+                    }
+                }
+            });
+        }
+    });
+    let results = results.lock().unwrap();
+    let mut sum: BTreeMap<String, u64> = BTreeMap::new();
+    let mut maxr = 0u64;
+    let mut failures: Vec<Value> = extra_failures.lock().unwrap().clone();
+    let mut samples: Vec<String> = vec![];
+    let mut refused: Vec<Value> = vec![];
+    let mut not_compiled: Vec<Value> = vec![];
+    let mut builtin_uses: BTreeMap<String, u64> = BTreeMap::new();
+    let mut traces = std::collections::BTreeSet::new();
+    for r in results.iter() {
+        for (k, v) in r.as_object().unwrap() {
+            if let Some(n) = v.as_u64() {
+                if k == "c04_max_actual_over_charged_permille" {
+                    maxr = maxr.max(n);
+                } else {
+                    *sum.entry(k.clone()).or_insert(0) += n;
+                }
+            }
+        }
+        failures.extend(r["failures"].as_array().cloned().unwrap_or_default());
+        refused.extend(r["configs_refused"].as_array().cloned().unwrap_or_default());
+        not_compiled.extend(r["not_compiled_list"].as_array().cloned().unwrap_or_default());
+        for s in r["samples"].as_array().cloned().unwrap_or_default() {
+            if samples.len() < 10 {
+                samples.push(s.as_str().unwrap_or("").to_string());
+            }
+        }
+        for (k, v) in r["builtin_uses"].as_object().cloned().unwrap_or_default() {
+            *builtin_uses.entry(k).or_insert(0) += v.as_u64().unwrap_or(0);
+        }
+        for t in r["distinct_traces"].as_array().cloned().unwrap_or_default() {
+            traces.insert(t.as_u64().unwrap_or(0));
+        }
+    }
+    let mut summary = json!(sum);
+    summary["c04_max_actual_over_charged_permille"] = json!(maxr);
+    summary["distinct_traces"] = json!(traces.len());
+    summary["builtin_uses"] = json!(builtin_uses);
+    summary["configs_refused"] = json!(refused);
+    summary["batches"] = json!(batches.len());
+    summary["batches_skipped_by_deadline"] = json!(skipped.load(Ordering::SeqCst));
+    summary["failures"] = json!(failures.len());
+    summary["seconds"] = json!(t0.elapsed().as_secs_f64());
+    std::fs::write(format!("{out_dir}/summary.json"), serde_json::to_string_pretty(&summary).unwrap()).unwrap();
+    std::fs::write(format!("{out_dir}/runtime_failures.json"), serde_json::to_string_pretty(&failures).unwrap()).unwrap();
+    std::fs::write(format!("{out_dir}/not_compiled.json"), serde_json::to_string_pretty(&not_compiled).unwrap()).unwrap();
+    std::fs::write(format!("{out_dir}/samples.txt"), samples.join("\n")).unwrap();
+    let mut o = std::io::stdout();
+    let _ = writeln!(o, "{}", serde_json::to_string(&summary).unwrap());
+}
+
 fn main() {
-    eprintln!("h14run: not built yet");
+    let args: Vec<String> = std::env::args().collect();
+    match args.get(1).map(|s| s.as_str()) {
+        Some("worker") if args.len() >= 4 => {
+            let (a, b) = (args[2].clone(), args[3].clone());
+            std::thread::Builder::new().stack_size(512 << 20).spawn(move || worker_main(&a, &b)).unwrap().join().ok();
+        }
+        Some(_) if args.len() >= 4 => parent_main(&args[1], &args[2], &args[3]),
+        _ => {
+            eprintln!("usage: h14run <sources_dir> <out_dir> <quick|thorough> | h14run worker <batch.json> <result.json>");
+            std::process::exit(2);
+        }
+    }
+    let _ = EntryCodeConfig::testing();
 }
